@@ -11,20 +11,20 @@ EXTENDS Integers, Sequences, FiniteSets, TLC, Json
 
 CONSTANTS MaxLen, MaxCalls, WithLocal, WithClose
 
-VARIABLES hist, nextq, nexttag, opened, finished, bodies, returned, capans, relsent, boot, lboot, lq, lret, lcalls, lrel, closed, oncancel
-vars == <<hist, nextq, nexttag, opened, finished, bodies, returned, capans, relsent, boot, lboot, lq, lret, lcalls, lrel, closed, oncancel>>
+VARIABLES hist, nextq, nexttag, opened, finished, bodies, returned, capans, relsent, boot, lboot, lq, lret, lcalls, lrel, closed, oncancel, pexp
+vars == <<hist, nextq, nexttag, opened, finished, bodies, returned, capans, relsent, boot, lboot, lq, lret, lcalls, lrel, closed, oncancel, pexp>>
 
 Act(a) == [a |-> a, q |-> 0 - 1, on |-> 0 - 1, exp |-> 0 - 1, n |-> 0, tag |-> 0 - 1, kind |-> "", rel |-> FALSE, h |-> "", cap |-> 0 - 1, k |-> 0]
 Add(x) == hist' = Append(hist, x)
 Room == Len(hist) < MaxLen /\ ~closed
 
 Init == /\ hist = <<>> /\ nextq = 1 /\ nexttag = 1 /\ opened = {} /\ finished = {} /\ bodies = {} /\ returned = {}
-        /\ capans = {} /\ relsent = {} /\ boot = FALSE /\ lboot = FALSE /\ lq = 0 /\ lret = 0 /\ lcalls = 0 /\ lrel = {} /\ closed = FALSE /\ oncancel = FALSE
+        /\ capans = {} /\ relsent = {} /\ boot = FALSE /\ lboot = FALSE /\ lq = 0 /\ lret = 0 /\ lcalls = 0 /\ lrel = {} /\ closed = FALSE /\ oncancel = FALSE /\ pexp = {}
 
 \* peer: Bootstrap (answer id 1 is the bootstrap answer)
 PBootstrap == /\ Room /\ ~boot /\ boot' = TRUE /\ opened' = opened \cup {nextq}
               /\ Add([Act("p-bootstrap") EXCEPT !.q = nextq]) /\ nextq' = nextq + 1
-              /\ UNCHANGED <<nexttag, finished, bodies, returned, capans, relsent, lboot, lq, lret, lcalls, lrel, closed, oncancel>>
+              /\ UNCHANGED <<nexttag, finished, bodies, returned, capans, relsent, lboot, lq, lret, lcalls, lrel, closed, oncancel, pexp>>
 \* peer: Call on a promised answer (the bootstrap answer: path root; a call's answer: field 0) or on an export it holds
 PCall == /\ Room /\ nexttag <= MaxCalls
          /\ \E tgt \in ({ <<"ans", a>> : a \in opened \ finished } \cup { <<"exp", a>> : a \in capans \ relsent }),
@@ -35,48 +35,58 @@ PCall == /\ Room /\ nexttag <= MaxCalls
                         !.kind = (IF tgt[1] = "ans" /\ tgt[2] = 1 THEN "root" ELSE "")])
          /\ opened' = opened \cup {nextq} /\ bodies' = bodies \cup {<<nexttag, nextq>>}
          /\ nextq' = nextq + 1 /\ nexttag' = nexttag + 1
-         /\ UNCHANGED <<finished, returned, capans, relsent, boot, lboot, lq, lret, lcalls, lrel, closed, oncancel>>
+         /\ UNCHANGED <<finished, returned, capans, relsent, boot, lboot, lq, lret, lcalls, lrel, closed, oncancel, pexp>>
 \* application: a method body returns
 AReturn == /\ Room /\ \E b \in bodies : b[1] \notin returned /\
               \E kind \in {"ok-newcap", "ok-nocap", "err"} :
                 /\ Add([Act("a-return") EXCEPT !.tag = b[1], !.kind = kind])
                 /\ returned' = returned \cup {b[1]}
                 /\ capans' = IF kind = "ok-newcap" THEN capans \cup {b[2]} ELSE capans
-           /\ UNCHANGED <<nextq, nexttag, opened, finished, bodies, relsent, boot, lboot, lq, lret, lcalls, lrel, closed, oncancel>>
+           /\ UNCHANGED <<nextq, nexttag, opened, finished, bodies, relsent, boot, lboot, lq, lret, lcalls, lrel, closed, oncancel, pexp>>
 \* application: what a method body will do when its context is cancelled (Close, abort, Finish before it returned): by default it
 \* gives up with an error; here it is told to complete with results carrying a new capability (at most once per script)
 AOnCancel == /\ WithClose /\ Room /\ ~oncancel /\ oncancel' = TRUE
              /\ \E b \in bodies : b[1] \notin returned /\ Add([Act("a-oncancel") EXCEPT !.tag = b[1], !.kind = "ok-newcap"])
-             /\ UNCHANGED <<nextq, nexttag, opened, finished, bodies, returned, capans, relsent, boot, lboot, lq, lret, lcalls, lrel, closed>>
+             /\ UNCHANGED <<nextq, nexttag, opened, finished, bodies, returned, capans, relsent, boot, lboot, lq, lret, lcalls, lrel, closed, pexp>>
 PFinish == /\ Room /\ \E q \in opened \ finished, r \in BOOLEAN :
               /\ (r => q \notin relsent)                 \* a reference is given back once: by Release or by releaseResultCaps
               /\ Add([Act("p-finish") EXCEPT !.q = q, !.rel = r]) /\ finished' = finished \cup {q}
               /\ relsent' = IF r THEN relsent \cup {q} ELSE relsent
-           /\ UNCHANGED <<nextq, nexttag, opened, bodies, returned, capans, boot, lboot, lq, lret, lcalls, lrel, closed, oncancel>>
+           /\ UNCHANGED <<nextq, nexttag, opened, bodies, returned, capans, boot, lboot, lq, lret, lcalls, lrel, closed, oncancel, pexp>>
 \* peer: Release the reference it got in answer a's Return (bootstrap answer 1 included)
 PRelease == /\ Room /\ \E a \in (capans \cup (IF boot THEN {1} ELSE {})) \ relsent :
                /\ Add([Act("p-release") EXCEPT !.exp = a, !.k = 1]) /\ relsent' = relsent \cup {a}
-            /\ UNCHANGED <<nextq, nexttag, opened, finished, bodies, returned, capans, boot, lboot, lq, lret, lcalls, lrel, closed, oncancel>>
+            /\ UNCHANGED <<nextq, nexttag, opened, finished, bodies, returned, capans, boot, lboot, lq, lret, lcalls, lrel, closed, oncancel, pexp>>
 \* local application: Bootstrap(), the peer's answer, calls on the imported capability, release
 LBootstrap == /\ WithLocal /\ Room /\ ~lboot /\ lboot' = TRUE /\ lq' = lq + 1
               /\ Add([Act("l-bootstrap") EXCEPT !.h = "boot", !.cap = 9])
-              /\ UNCHANGED <<nextq, nexttag, opened, finished, bodies, returned, capans, relsent, boot, lret, lcalls, lrel, closed, oncancel>>
+              /\ UNCHANGED <<nextq, nexttag, opened, finished, bodies, returned, capans, relsent, boot, lret, lcalls, lrel, closed, oncancel, pexp>>
 PReturn == /\ WithLocal /\ Room /\ lret < lq
-           /\ \E kind \in {"results", "exception"} :
-                Add([Act("p-return") EXCEPT !.q = lret, !.kind = (IF lret = 0 /\ kind = "results" THEN "bootcap" ELSE kind),
-                       !.cap = (IF lret = 0 THEN 9 ELSE 0 - 1), !.tag = (IF lret = 0 THEN 0 - 1 ELSE 100 + lret)])
+           /\ \E kind \in {"results", "exception"}, rel \in (IF lret \in pexp THEN BOOLEAN ELSE {FALSE}) :
+                /\ Add([Act("p-return") EXCEPT !.q = lret, !.kind = (IF lret = 0 /\ kind = "results" THEN "bootcap" ELSE kind),
+                       !.cap = (IF lret = 0 THEN 9 ELSE 0 - 1), !.tag = (IF lret = 0 THEN 0 - 1 ELSE 100 + lret), !.rel = rel])
+                \* releaseParamCaps: the peer gives back the references it got in the call's parameters
+                /\ pexp' = IF rel THEN pexp \ {lret} ELSE pexp
            /\ lret' = lret + 1
            /\ UNCHANGED <<nextq, nexttag, opened, finished, bodies, returned, capans, relsent, boot, lboot, lq, lcalls, lrel, closed, oncancel>>
+\* a local call, with or without a capability of this vat in its parameters (the connection exports it to the peer)
 LCall == /\ WithLocal /\ Room /\ lboot /\ "boot" \notin lrel /\ lcalls < 2
-         /\ Add([Act("l-call") EXCEPT !.h = "boot", !.tag = 100 + lq]) /\ lq' = lq + 1 /\ lcalls' = lcalls + 1
+         /\ \E wc \in BOOLEAN :
+              /\ Add([Act("l-call") EXCEPT !.h = "boot", !.tag = 100 + lq, !.kind = (IF wc THEN "withcap" ELSE "")])
+              /\ pexp' = IF wc THEN pexp \cup {lq} ELSE pexp
+         /\ lq' = lq + 1 /\ lcalls' = lcalls + 1
          /\ UNCHANGED <<nextq, nexttag, opened, finished, bodies, returned, capans, relsent, boot, lboot, lret, lrel, closed, oncancel>>
+\* the peer releases the reference it holds on a capability it received as a parameter
+PReleaseParam == /\ WithLocal /\ Room /\ \E i \in pexp :
+                    /\ Add([Act("p-release-param") EXCEPT !.tag = 100 + i, !.k = 1]) /\ pexp' = pexp \ {i}
+                 /\ UNCHANGED <<nextq, nexttag, opened, finished, bodies, returned, capans, relsent, boot, lboot, lq, lret, lcalls, lrel, closed, oncancel>>
 LRelease == /\ WithLocal /\ Room /\ lboot /\ "boot" \notin lrel
             /\ Add([Act("l-release") EXCEPT !.h = "boot"]) /\ lrel' = lrel \cup {"boot"}
-            /\ UNCHANGED <<nextq, nexttag, opened, finished, bodies, returned, capans, relsent, boot, lboot, lq, lret, lcalls, closed, oncancel>>
+            /\ UNCHANGED <<nextq, nexttag, opened, finished, bodies, returned, capans, relsent, boot, lboot, lq, lret, lcalls, closed, oncancel, pexp>>
 Close == /\ WithClose /\ Len(hist) < MaxLen /\ ~closed /\ closed' = TRUE /\ Add(Act("close"))
-         /\ UNCHANGED <<nextq, nexttag, opened, finished, bodies, returned, capans, relsent, boot, lboot, lq, lret, lcalls, lrel, oncancel>>
+         /\ UNCHANGED <<nextq, nexttag, opened, finished, bodies, returned, capans, relsent, boot, lboot, lq, lret, lcalls, lrel, oncancel, pexp>>
 
-Next == PBootstrap \/ PCall \/ AReturn \/ AOnCancel \/ PFinish \/ PRelease \/ LBootstrap \/ PReturn \/ LCall \/ LRelease \/ Close
+Next == PBootstrap \/ PCall \/ AReturn \/ AOnCancel \/ PFinish \/ PRelease \/ LBootstrap \/ PReturn \/ LCall \/ PReleaseParam \/ LRelease \/ Close
 Spec == Init /\ [][Next]_vars
 Emit == (Len(hist) > 0 /\ (Len(hist) = MaxLen \/ ~ENABLED Next)) => PrintT(<<"SCRIPT", ToJson(hist)>>)
 =============================================================================
